@@ -524,7 +524,7 @@ func (g *G) finish(ctx []vr, a *Ty) Term {
 		}
 	}
 	// tail call of a definition whose parameters are exactly the context and whose result is a
-	if len(ctx) >= 1 && g.intn(2) == 1 {
+	if len(ctx) >= 1 && g.intn(3) != 0 {
 		for _, s := range g.sigs {
 			if key(s.Res) != key(a) || len(s.Params) != len(ctx) {
 				continue
@@ -548,7 +548,7 @@ func (g *G) finish(ctx []vr, a *Ty) Term {
 				args = append(args, ctx[f].n)
 			}
 			if ok {
-				if g.intn(3) == 1 {
+				if g.intn(2) == 1 {
 					args = append([]string{"self"}, args...) // explicit provider argument
 				}
 				return &Call{F: s.Name, Args: args}
@@ -655,7 +655,7 @@ func Generate(intn func(int) int, opt Options) *Program {
 		body := g.gen(ctx, rt, 2+g.intn(3)+2*opt.Scale)
 		g.pop()
 		d := &Def{Name: name, Params: params, Res: rt, Body: body}
-		if g.intn(6) == 1 {
+		if g.intn(3) == 1 {
 			d.Prov = "me" // explicit provider name instead of self
 			d.Body = substSelf(d.Body, "me")
 		}
